@@ -994,6 +994,10 @@ class Machine:
                         c.set_fact(f.key, opt)
                         work.append(c)
                     self.stats["forks"] += 1
+                    if len(outs) + len(work) > max_paths or len(s.log) > 4000:
+                        self.last_outs = outs
+                        self.last_fork = f.key
+                        raise AnalysisError("path explosion (> %d pending paths, or a path with > 4000 decisions; last decision %r)" % (max_paths, f.key))
                     break
                 except Infeasible:
                     break
